@@ -9,6 +9,8 @@ impl PathId { pub fn display(&self) -> u64 { self.0 } }
 pub struct WalSegment { pub id: u64 }
 pub struct Writer { pub deleted: Option<u64>, pub deletes: u32 }
 impl Writer { pub fn delete(&mut self, p: &PathId) -> Result<(), ()> { self.deleted = Some(p.0); self.deletes += 1; Ok(()) } }
+pub struct DbMeta { pub next_wal_id: u64 }
+impl DbMeta { pub fn set_next_wal_id(&mut self, v: u64) { self.next_wal_id = v; } pub fn get_next_wal_id(&self) -> u64 { self.next_wal_id } }
 include!("cursor.rs");
 
 #[cfg(kani)]
@@ -75,6 +77,19 @@ mod proofs {
         kani::assume(next.is_none() || next == Some(id));
         replay_step(&mut next, &WalSegment { id });
         assert!(next == Some(id + 1), "[expects-successor] after replaying id the next expected id is id + 1");
+    }
+
+    // C08 / C14: the catalogue persists the flush cursor; after a restart the cursor is what it was, and ids at or above it
+    // are never considered flushed
+    #[kani::proof]
+    fn persisted_cursor_roundtrip() {
+        let m = MetaStore { next_wal_id: kani::any(), earliest_unflushed_wal_id: kani::any() };
+        kani::assume(m.earliest_unflushed_wal_id <= m.next_wal_id);
+        let mut msg = DbMeta { next_wal_id: kani::any() };
+        ser_cursor(&m, &mut msg);
+        let back = de_cursor_build(de_cursor_read(&msg));
+        assert!(back.earliest_unflushed_wal_id == m.earliest_unflushed_wal_id, "[cursor-roundtrip] the persisted cursor is the flush cursor: segments at or after it are replayed on restart");
+        assert!(back.next_wal_id <= m.next_wal_id && back.next_wal_id >= back.earliest_unflushed_wal_id, "[next-id-not-ahead] the restored next id is not ahead of ids that were handed out (replayed segments register themselves)");
     }
 
     #[kani::proof]
